@@ -22,11 +22,11 @@ private theorem dec_natCast_le (a b : Nat) : decide ((a : Int) ≤ (b : Int)) = 
 /-! ### capacity LRU (C15, C17) -/
 
 theorem lruShouldEvict_leaves :
-    Gen.lruShouldEvict_leaves = ["c.evictList.Len() : Int", "c.size : Int", "c.currentCapacityInBytes : Int", "c.maxCapacityInBytes : Int"] := rfl
+    Gen.lruShouldEvict_leaves = ["c.currentCapacityInBytes : Int", "c.evictList.Len() : Int", "c.maxCapacityInBytes : Int", "c.size : Int"] := rfl
 
 /-- `capacityLRU.shouldEvict` is the model's `Cap.shouldEvict` -/
 theorem lruShouldEvict_eq (c : LRU.Cap) :
-    c.shouldEvict = Gen.lruShouldEvict c.entries.length c.cap c.bytes c.maxBytes := by
+    c.shouldEvict = Gen.lruShouldEvict (c_evictList_Len := c.entries.length) (c_size := c.cap) (c_currentCapacityInBytes := c.bytes) (c_maxCapacityInBytes := c.maxBytes) := by
   unfold LRU.Cap.shouldEvict Gen.lruShouldEvict
   by_cases h : c.entries.length = 1
   · simp [h]
